@@ -18,20 +18,25 @@ struct RepeatedBoolVisitor {
 
 /// Return true if the expression is pure (no side effects), meaning
 /// it's safe to flag as a duplicate when structurally equal.
-fn is_pure(expr: &Expression) -> bool {
+pub(crate) fn is_pure(expr: &Expression) -> bool {
     is_pure_(&expr.expr_)
 }
 
 fn is_pure_(expr: &Expression_) -> bool {
     match expr {
-        Expression_::Variable(_) | Expression_::IntLiteral(_) | Expression_::StringLiteral(_) => {
-            true
-        }
+        Expression_::Variable(_)
+        | Expression_::IntLiteral(_)
+        | Expression_::FloatLiteral(_)
+        | Expression_::StringLiteral(_) => true,
         Expression_::Parentheses(paren) => is_pure(&paren.expr),
         Expression_::BinaryOperator(lhs, _, rhs) => is_pure(lhs) && is_pure(rhs),
         Expression_::DotAccess(lhs, _) | Expression_::NamespaceAccess(lhs, _) => is_pure(lhs),
         Expression_::ListLiteral(items) => items.iter().all(|item| is_pure(&item.expr)),
         Expression_::TupleLiteral(items) => items.iter().all(|item| is_pure(item)),
+        Expression_::DictLiteral(items) => items
+            .iter()
+            .all(|item| is_pure(&item.key) && is_pure(&item.value)),
+        Expression_::StructLiteral(_, fields) => fields.iter().all(|(_, expr)| is_pure(expr)),
         _ => false,
     }
 }
